@@ -18,6 +18,20 @@ class FnDict(dict):
         return hash(frozenset(self.items()))
 
 
+class Rec(dict):
+    """A parsed TLA+ record (hashable so that sets of records can be represented)."""
+
+    def __hash__(self):
+        return hash(frozenset((k, _h(v)) for k, v in self.items()))
+
+
+def _h(v):
+    try:
+        return hash(v)
+    except TypeError:
+        return hash(repr(v))
+
+
 class TLAParseError(Exception):
     pass
 
@@ -74,7 +88,7 @@ class _P:
             return frozenset(items)
         if c == '[':
             self.i += 1
-            d = {}
+            d = Rec()
             self.ws()
             if self.peek(1) == ']':
                 self.i += 1
